@@ -118,6 +118,16 @@ def run(chk):
             if len(line) < 60 and rng.random() < 0.8:
                 continue
             line = "result_variable_with_a_long_name_%d = %s" % (tmpl, line) if tmpl == 2 else line
+            if tmpl == 0 and not FORTRAN_ONLY & set(idxs):
+                # lines that are legal only in context, as the Python generator emits them: a yield, a block header
+                body = TEMPLATES[0][1].join(FRAGS[i - 1] for i in idxs)
+                for ctx in ("yield self.StateComputed(t=self.t + self.dt, time_id='final', component_id='y', state_component=[%s])" % body,
+                            "if %s:" % " and ".join("(%s) != 0" % FRAGS[i - 1] for i in idxs if FRAGS[i - 1][0] not in "\"'")):
+                    if len(ctx) < 70 or ctx == "if :":
+                        continue
+                    out, w, ind, lv, err = emit_real("python", ctx, rng.choice([0, 1]))
+                    cases.append({"target": "python", "line": list(ctx), "text": ctx, "level": lv, "indent": ind, "width": w,
+                                  "out": [list(o) for o in out], "outtext": out, "err": err, "emit": True, "ast": "n/a"})
             for target in ("python", "fortran"):
                 if target == "python" and FORTRAN_ONLY & set(idxs):
                     continue
